@@ -104,7 +104,9 @@ def _decode_hex_char(value: str, index: int, token: Token) -> tuple[int, int]:
 
 def _parse_hex_digits(digits: str, token: Token) -> int:
     codepoint = 0
-    for digit in digits.encode():
+    # "surrogatepass": a lone surrogate in the grammar text is not a hex digit,
+    # it must not make encode() raise.
+    for digit in digits.encode("utf-8", "surrogatepass"):
         codepoint <<= 4
         if digit >= 48 and digit <= 57:
             codepoint |= digit - 48
